@@ -8,6 +8,7 @@ import NucsProofs.Propagators.Dummy
 import NucsProofs.Propagators.Element
 import NucsProofs.Propagators.ExactOfSupport
 import NucsProofs.Propagators.GccExact
+import NucsProofs.Propagators.GccLbcFinal
 import NucsProofs.Propagators.GccPortSound
 import NucsProofs.Propagators.GccReg
 import NucsProofs.Propagators.Lex
@@ -71,18 +72,24 @@ theorem C14_alldifferent_is_port (ps : List Int) (B : Box) (hne : B ≠ []) (hdo
 theorem C14_alldifferent_hall (ps : List Int) (B : Box) (hne : B ≠ []) (hdom : ∀ d ∈ B, d.1 ≤ d.2)
     (B' : Box) (h : alldifferent ps B = .ok (.cons, B')) : HallOK B' ∧ HallPruned B' := port_hall_pruned ps B hne hdom B' h
 
-/-- gcc, raw port, PARTIAL: exactness (every bound of the answer has a support, a second call changes nothing) is proved
-    from ONE explicit hypothesis that is tested, not proved: both bounds of every variable of the answer have a support in the
-    LOWER-capacity relaxation of the input box (`LbcSupported`; the completeness half of the two lower-capacity passes).  Proved
-    unconditionally: the upper-capacity supports, the combination of a lower and an upper support into a gcc support (Quimper et
-    al.'s alternating-path step), and that a supported answer is a fixpoint of the port (`gcc_port_fixpoint_of_supported`). -/
-theorem C14_gcc_port_exact_partial (ps : List Int) (B : Box) (hc : Contract .gcc ps B) (hB : B.Nonempty)
+/-- gcc, RAW PORT of nucs/propagators/gcc_propagator.py (line by line), every number of values, every upper capacity ≥ 1:
+    exactness — every bound of a non-failing answer is attained by a solution inside the answer, and a second call changes
+    nothing.  20 kLoC: soundness (GccSound*), existence of assignments with lower and upper capacities over interval domains
+    (GccExist*: Hall's theorem by capacity expansion + Quimper et al.'s combination of a lower and an upper support),
+    completeness of the two upper-capacity passes (as for alldifferent) and of the two lower-capacity passes (GccLbc*:
+    freeability by alternating chains for stable variables, Hall intervals of the contracted instance for the others).
+    `C14_gcc` is absent from the list above only because `runAlg .gcc` is the port behind a result checker (sound also for a
+    zero capacity, where the CODE misbehaves: known finding K1) and `Exact` quantifies over the whole contract. -/
+theorem C14_gcc_port_exact (ps : List Int) (B : Box) (hc : Contract .gcc ps B) (hB : B.Nonempty)
     (hu : ∀ j, j < (ps.length - 1) / 2 → 1 ≤ getI ps (1 + (ps.length - 1) / 2 + j))
-    (st : Status) (B' : Box) (h : gcc ps B = .ok (st, B')) (hst : st ≠ .inc)
-    (hlbc : ∀ k, k < B'.length → LbcSupported ps B k (getDom B' k).1 ∧ LbcSupported ps B k (getDom B' k).2) :
+    (st : Status) (B' : Box) (h : gcc ps B = .ok (st, B')) (hst : st ≠ .inc) :
     (∀ k, k < B'.length →
       (∃ t, inBox t B' ∧ rel .gcc ps t ∧ getI t k = (getDom B' k).1) ∧
       (∃ t, inBox t B' ∧ rel .gcc ps t ∧ getI t k = (getDom B' k).2)) ∧
-    (∃ st', gcc ps B' = .ok (st', B') ∧ st' ≠ .inc) := gcc_port_exact_partial ps B hc hB hu st B' h hst hlbc
+    (∃ st', gcc ps B' = .ok (st', B') ∧ st' ≠ .inc) := gcc_port_exact ps B hc hB hu st B' h hst
+theorem C14_gcc_port_idempotent (ps : List Int) (B : Box) (hc : Contract .gcc ps B) (hB : B.Nonempty)
+    (hu : ∀ j, j < (ps.length - 1) / 2 → 1 ≤ getI ps (1 + (ps.length - 1) / 2 + j))
+    (st : Status) (B' : Box) (h : gcc ps B = .ok (st, B')) (hst : st ≠ .inc) : gcc ps B' = .ok (.cons, B') :=
+  gcc_port_idempotent ps B hc hB hu st B' h hst
 
 end Nucs
